@@ -800,10 +800,20 @@ class Frame(object):
             outs = fin
         return outs
 
-    def _iter_values(self, node, st, bname=None):
+    def _iter_values(self, node, st, bname=None, target=None):
         """Return a list of Vals if the iterable is statically enumerable, else None."""
         itv = self.ev(node, st)
         t = render(itv)
+        self._fuse = None
+        if isinstance(itv, EachV) and len(itv.elems) == 1 and isinstance(itv.elems[0], Sym) and itv.elems[0].text != itv.var \
+                and bname is not None and isinstance(target, ast.Name):
+            # iterating a mapping / projecting comprehension `(E(v) for v in coll if c)` is iterating coll (with the filter)
+            # with the loop variable bound to E(v): `for x in (g for k, g in coll if c)` = `for k, g in coll: if c: x = g`
+            roots = set(re.findall(r'\$[\d.]+', itv.var))
+            if len(roots) == 1 and (itv.var in roots or re.match(r'^\((%s_\d+(, )?)+\)$' % re.escape(next(iter(roots))), itv.var)):
+                pat = re.escape(next(iter(roots))) + r'(?!\d)(?!\.\d)'
+                self._fuse = (re.sub(pat, bname, itv.var), Sym(re.sub(pat, bname, itv.elems[0].text), nonnull=True))
+                return None, re.sub(pat, bname, itv.coll)
         if isinstance(itv, EachV) and len(itv.elems) == 1 and isinstance(itv.elems[0], Sym) and itv.elems[0].text == itv.var \
                 and bname is not None and re.match(r'^\$[\d.]+$', itv.var):
             # iterating a (filtered) identity comprehension is iterating the underlying collection (with the filter)
@@ -818,7 +828,7 @@ class Frame(object):
         return None, t
 
     def st_For(self, node, st):
-        vals, colltext = self._iter_values(node.iter, st, self._bname(node))
+        vals, colltext = self._iter_values(node.iter, st, self._bname(node), node.target)
         if vals is not None:
             cur = [(st, 'normal')]
             for v in vals:
@@ -856,11 +866,19 @@ class Frame(object):
 
     def _summarise_loop(self, node, st, colltext, vartext, target):
         before = st.fork()
+        fuse, self._fuse = getattr(self, '_fuse', None), None
         if target is not None:
-            vartext = self._assign_loopvars(target, st, node, self._bname(node))
+            if fuse is not None and isinstance(target, ast.Name):
+                vartext = fuse[0]
+                st.env[target.id] = fuse[1]
+            else:
+                vartext = self._assign_loopvars(target, st, node, self._bname(node))
             st.bound[self._bname(node)] = colltext.split(' if ')[0]       # the collection; a fused filter stays in the EACH text
         nyield = len(st.yields)
         body = self.block(node.body, st)
+        if getattr(self.sc, 'loop_observer', None) is not None:
+            # rules that reason about one iteration (which paths skip / attach / file) see the paths before they are merged
+            self.sc.loop_observer(self, node, colltext, vartext, before, body)
         outs = []
         normal = [s for s, status in body if status in ('normal', 'continue', 'break')]
         statuses = [status for s, status in body if status in ('normal', 'continue', 'break')]
@@ -1342,8 +1360,13 @@ class Frame(object):
         s2 = st.fork()
         gens = []
         for g in node.generators:
-            it = self._iter_values(g.iter, s2, self._bname(g))[1]
-            vt = self._assign_loopvars(g.target, s2, node, self._bname(g))
+            it = self._iter_values(g.iter, s2, self._bname(g), g.target)[1]
+            fuse, self._fuse = self._fuse, None
+            if fuse is not None:
+                vt = fuse[0]
+                s2.env[g.target.id] = fuse[1]
+            else:
+                vt = self._assign_loopvars(g.target, s2, node, self._bname(g))
             st.bound[self._bname(g)] = it.split(' if ')[0]
             s2.bound[self._bname(g)] = it.split(' if ')[0]
             conds = [self.cond_text(c, s2) for c in g.ifs]
@@ -1725,6 +1748,11 @@ class Frame(object):
             if n in ('iter', 'list', 'tuple') and len(args) == 1 and isinstance(args[0], EachV) and not kwargs:
                 record(n)
                 return args[0]
+            if n == 'filter' and len(args) == 2 and not kwargs:
+                fv = self._filter_each(node, args, st)
+                if fv is not None:
+                    record(n)
+                    return fv
             if n == 'reversed' and len(args) == 1 and isinstance(args[0], ListV):
                 rev = []
                 for e in reversed(args[0].elems):
@@ -1746,6 +1774,35 @@ class Frame(object):
         ftext = self.text(func, st)
         record(ftext)
         return Sym('%s(%s)' % (ftext, self._argtext(args, kwargs)))
+
+    def _filter_each(self, node, args, st):
+        """filter(lambda v: c, it) / filter(<one-expression local function>, it) is the comprehension (v for v in it if c)."""
+        pred = node.args[0]
+        lam = None
+        if isinstance(pred, ast.Lambda):
+            lam = (pred.args, pred.body)
+        elif isinstance(args[0], Sym) and args[0].text.startswith('lambda '):
+            try:
+                x = ast.parse(args[0].text, mode='eval').body
+                lam = (x.args, x.body)
+            except SyntaxError:
+                lam = None
+        elif isinstance(args[0], FuncV) and args[0].fi.cls is None:
+            body = [b for b in args[0].fi.node.body if not (isinstance(b, ast.Expr) and isinstance(b.value, ast.Constant))]
+            if len(body) == 1 and isinstance(body[0], ast.Return) and body[0].value is not None:
+                lam = (args[0].fi.node.args, body[0].value)
+        if lam is None or len(lam[0].args) != 1 or lam[0].vararg or lam[0].kwarg or lam[0].kwonlyargs or lam[0].defaults:
+            return None
+        if not hasattr(self, 'lambda_index'):
+            self.lambda_index = {}
+        k = self.lambda_index.setdefault(id(node), len(self.bindex) + len(self.lambda_index) + 1)
+        bname = '$%d' % k if self.depth == 0 else '$%d.%d' % (self.depth, k)
+        s2 = st.fork()
+        s2.env[lam[0].args[0].arg] = Sym(bname, nonnull=True)
+        cond = self.cond_text(lam[1], s2)
+        it = render(args[1])
+        st.bound[bname] = it
+        return EachV(bname, '%s if %s' % (it, cond), [Sym(bname)])
 
     def _argtext(self, args, kwargs):
         parts = [render(a) for a in args] + ['%s=%s' % (k, render(v)) for k, v in kwargs.items()]
